@@ -4,7 +4,7 @@
    crafted files, not proved. *)
 From Coq Require Import ZArith List Bool.
 Require Import V.Lib.Val V.Lib.Result V.Dex.LebModel V.Misc.TermModel V.Misc.TermProofs V.Dex.StringsModel.
-Require V.Axml.AxmlModel V.Axml.AxmlTerm.
+Require V.Axml.AxmlModel V.Axml.AxmlTerm V.Axml.ArscTableModel V.Axml.ArscTableTerm.
 Import ListNotations.
 Open Scope Z_scope.
 
@@ -31,6 +31,13 @@ Print Assumptions C35_hidden_api_loops_end.
 Theorem C35_binary_xml_parsing_ends : forall sysattr buf, AxmlModel.parse_axml sysattr buf <> Err OutOfFuel.
 Proof. exact AxmlTerm.parse_axml_ends. Qed.
 Print Assumptions C35_binary_xml_parsing_ends.
+
+(* the walk of ARSCParser.__init__ over a resource table as modelled (C28: table header, chunks of the table, package headers
+   with their two string pools, chunks of each package, type chunks with offset arrays in the three encodings and plain,
+   compact and complex entries): it ends for EVERY string of bytes; both chunk loops go on at least eight bytes further on *)
+Theorem C35_resource_table_walk_ends : forall buf, Forall (fun b => 0 <= b) buf -> ArscTableModel.parse_table buf <> Err OutOfFuel.
+Proof. exact ArscTableTerm.parse_table_ends. Qed.
+Print Assumptions C35_resource_table_walk_ends.
 
 Theorem C35_accepted_header_advances_the_chunk_loop : forall buf start expected ty hs sz st pos,
   arsc_header buf start expected = Ok [ty; hs; sz; st; pos] -> st = start /\ start + 8 <= st + sz.
